@@ -5,6 +5,7 @@ use scnr_verif_harness::astser::{self, RefCache, RefTables};
 use scnr_verif_harness::cfggen::{self, ModeSpec, PatSpec, ProgCfg};
 use scnr_verif_harness::buildgen;
 use scnr_verif_harness::classgen;
+use scnr_verif_harness::dotparse;
 use scnr_verif_harness::jsonser;
 use scnr_verif_harness::world::{self, CompIds, RealWorld, WOp};
 use scnr_verif_harness::proto::{self, TableCache};
@@ -1366,6 +1367,140 @@ fn case_c16(seed: u64, idx: usize, cache: &TableCache, out: &mut String, st: &mu
     }
 }
 
+/// C18: the generated DOT files against the dump of the same scanner; I/O faults.
+fn case_c18(seed: u64, idx: usize, cache: &TableCache, out: &mut String, st: &mut Stats) {
+    let mut r = Rng::derive(seed, idx as u64);
+    let pc = ProgCfg { max_modes: 3, max_patterns: 4, lookahead: 40, nullable: true, transitions: true, big_tids: false };
+    let mut spec = cfggen::gen_program(&mut r, &pc);
+    // names and patterns needing escapes in labels
+    for (i, m) in spec.iter_mut().enumerate() {
+        if r.chance(40) {
+            m.name = format!("{}{}", *r.pick(&["IN\"IT", "back\\slash", "sp ace", "ü€", "a{b}", "semi;colon", "q\"\"q"]), i);
+        }
+        for p in m.patterns.iter_mut() {
+            if r.chance(25) {
+                let extra: &str = *r.pick(&["\\u{22}", "\\\\", "\"", "\\]", ";", "\\{", "->"]);
+                p.pattern.push_str(extra);
+            }
+        }
+    }
+    st.cases += 1;
+    let modes = cfggen::to_modes(&spec);
+    let built = catch_unwind(AssertUnwindSafe(|| ScannerBuilder::new().add_scanner_modes(&modes).build_uncached()));
+    let scanner = match built {
+        Ok(Ok(s)) => s,
+        Ok(Err(_)) => {
+            st.build_err += 1;
+            return;
+        }
+        Err(_) => {
+            st.build_panic += 1;
+            return;
+        }
+    };
+    let dump = scanner.verif_dump();
+    let tables = cache.tables(&scanner, &dump);
+    let _ = writeln!(out, "case {}\nexpect case {}\n# {}", idx, idx, describe(&spec).replace('\n', "\\n"));
+    proto::write_scanner(out, &dump, &tables);
+    let dir = std::env::temp_dir().join(format!("scnr_verif_c18_{}_{}_{}", std::process::id(), seed, idx));
+    let _ = std::fs::remove_dir_all(&dir);
+    std::fs::create_dir_all(&dir).unwrap();
+    let res = catch_unwind(AssertUnwindSafe(|| scanner.generate_compiled_automata_as_dot("pre", &dir)));
+    match res {
+        Err(_) => out.push_str("oracle FAIL generate_compiled_automata_as_dot panicked on a writable folder\nexpect oracle\n"),
+        Ok(Err(e)) => {
+            let _ = writeln!(out, "oracle FAIL generate_compiled_automata_as_dot failed on a writable folder: {}\nexpect oracle", e.to_string().replace('\n', " "));
+        }
+        Ok(Ok(())) => {
+            // one file per mode, named from the prefix and the mode name
+            let mut names: Vec<String> = std::fs::read_dir(&dir).unwrap().flatten().map(|e| e.file_name().to_string_lossy().to_string()).collect();
+            names.sort();
+            let mut want: Vec<String> = spec.iter().map(|m| format!("pre_{}.dot", m.name)).collect();
+            want.sort();
+            want.dedup();
+            if names != want {
+                let _ = writeln!(out, "oracle FAIL files written {:?}, expected {:?}\nexpect oracle", names, want);
+            } else {
+                out.push_str("oracle ok\nexpect oracle\n");
+            }
+            for (m, mode) in spec.iter().enumerate() {
+                // (two modes with one name overwrite each other: only the last one is on disk)
+                if spec.iter().skip(m + 1).any(|o| o.name == mode.name) {
+                    continue;
+                }
+                let path = dir.join(format!("pre_{}.dot", mode.name));
+                let text = std::fs::read_to_string(&path).unwrap_or_default();
+                let _ = writeln!(out, "dot {}", m);
+                match dotparse::parse(&text) {
+                    Err(e) => {
+                        let _ = writeln!(out, "expect dot malformed: {}", e.replace('\n', " "));
+                    }
+                    Ok(g) => {
+                        let mut line = String::from("dot");
+                        match dotparse::decode(&g, "") {
+                            Err(e) => line = format!("dot undecodable: {}", e),
+                            Ok(main) => {
+                                line.push_str(&main);
+                                // clusters sorted by token type (they come from a hash map)
+                                let mut cl: Vec<(usize, String)> = Vec::new();
+                                let mut bad = None;
+                                for c in &g.clusters {
+                                    let label = c.label.clone().unwrap_or_default();
+                                    // "LA for T<tid>(Pos|Neg)"
+                                    let parsed = label.strip_prefix("LA for T").and_then(|s| {
+                                        let (t, pol) = s.split_once('(')?;
+                                        let pos = match pol { "Pos)" => 1, "Neg)" => 0, _ => return None };
+                                        Some((t.parse::<usize>().ok()?, pos))
+                                    });
+                                    match parsed {
+                                        None => bad = Some(format!("cluster label {:?}", label)),
+                                        Some((t, pos)) => match dotparse::decode(c, &format!("{}_", t)) {
+                                            Ok(gs) => cl.push((t, format!(" {} {}{}", t, pos, gs))),
+                                            Err(e) => bad = Some(e),
+                                        },
+                                    }
+                                }
+                                cl.sort();
+                                let _ = write!(line, " {}", cl.len());
+                                for (_, c) in cl {
+                                    line.push_str(&c);
+                                }
+                                if let Some(b) = bad {
+                                    line = format!("dot undecodable: {}", b);
+                                }
+                            }
+                        }
+                        let _ = writeln!(out, "expect {}", line);
+                        st.count("dot_files_parsed", 1);
+                        st.count("dot_clusters", g.clusters.len());
+                    }
+                }
+            }
+        }
+    }
+    let _ = std::fs::remove_dir_all(&dir);
+    // faults: a missing folder and a "folder" that is a file must yield Err, never a panic
+    let missing = dir.join("does/not/exist");
+    let file_as_dir = std::env::temp_dir().join(format!("scnr_verif_c18_file_{}_{}_{}", std::process::id(), seed, idx));
+    let _ = std::fs::write(&file_as_dir, "x");
+    for (what, p) in [("missing folder", missing), ("path below a regular file", file_as_dir.join("sub"))] {
+        let res = catch_unwind(AssertUnwindSafe(|| scanner.generate_compiled_automata_as_dot("pre", &p)));
+        match res {
+            Err(_) => {
+                let _ = writeln!(out, "oracle FAIL generate_compiled_automata_as_dot panicked for a {}\nexpect oracle", what);
+            }
+            Ok(Ok(())) => {
+                let _ = writeln!(out, "oracle FAIL generate_compiled_automata_as_dot reported success for a {}\nexpect oracle", what);
+            }
+            Ok(Err(_)) => out.push_str("oracle ok\nexpect oracle\n"),
+        }
+    }
+    let _ = std::fs::remove_file(&file_as_dir);
+    if st.samples.len() < 2 {
+        st.samples.push(describe(&spec));
+    }
+}
+
 fn main() {
     // silence panic messages of caught panics
     std::panic::set_hook(Box::new(|_| {}));
@@ -1419,6 +1554,7 @@ fn main() {
                         "C13" => case_c13(seed, idx, &cache, &mut out, &mut st),
                         "C15" => case_c15(seed, idx, &mut out, &mut st),
                         "C16" => case_c16(seed, idx, &cache, &mut out, &mut st),
+                        "C18" => case_c18(seed, idx, &cache, &mut out, &mut st),
                         _ => case_iter(seed, idx, &suite, &cache, &mut out, &mut st),
                     }
                     idx += threads;
